@@ -30,7 +30,7 @@ class SimCrash(BaseException):
 
 
 CODE_PROPS = {
-    'add.valid_refused': ['C03'],
+    'add.valid_refused': ['C03', 'C07'],   # 'can be added' (C03) / 'regardless of how small the cache is' (C07)
     'add.wrong_index': ['C07'],
     'get.field_mismatch': ['C03'],
     'get.field_set_mismatch': ['C03'],
@@ -45,8 +45,8 @@ CODE_PROPS = {
     'len.mismatch': ['C07'],
     'inmem.accepted': ['C07'],
     'inmem.state_changed': ['C07'],
-    'open.refused': ['C07'],
-    'open.len': ['C07'],
+    'open.refused': ['C07', 'C03'],    # 'after closing and reopening' is in both statements
+    'open.len': ['C07', 'C03'],
     'create.refused': ['C07'],
     'sync.raised': ['C07'],
     'close.raised': ['C07'],
@@ -120,10 +120,11 @@ class StoreSim:
         return os.path.join(self.sandbox, where, name) if where else os.path.join(self.sandbox, name)
 
     def fpath(self, f: MFile) -> str:
-        return self.path(f.name, f.where)
+        return self.path(os.path.basename(f.name), f.where) if f.where else self.path(f.name)
 
     def apath(self, f: MFile, aname: str) -> str:
-        return self.path(aname, f.assoc_where.get(aname, ''))
+        w = f.assoc_where.get(aname, '')
+        return self.path(os.path.basename(aname), w) if w else self.path(aname)
 
     def eff_cache(self, cache_mb: int, fieldsets, rows_specs) -> int:
         """The simulator owns the cache knob but never sets it below one trajectory
@@ -317,6 +318,8 @@ class StoreSim:
         kw = {}
         if assoc:
             kw['associated_files'] = [(self.path(a), list(fs)) for a, fs in assoc]
+        for n_ in [name] + [a for a, _ in assoc]:
+            os.makedirs(os.path.dirname(self.path(n_)), exist_ok=True)
         try:
             store = TrajectoryStore.create(base_file=self.path(name), cache_size_mb=op['cache'], **kw)
         except Exception as e:  # noqa: BLE001
@@ -665,8 +668,16 @@ class StoreSim:
 
     def op_sync(self, op):
         sess = self.sessions.get(op['sess'])
-        if sess is None or sess.kind not in ('create', 'append'):
+        if sess is None or sess.kind not in ('create', 'append', 'mem'):
             return None
+        if sess.kind == 'mem':
+            try:
+                sess.store.sync()
+            except Exception as e:  # noqa: BLE001
+                self.probes['obs_mem_sync_raised'] += 1
+                return f'obs:{type(e).__name__}'
+            self.probes['sync_mem'] += 1
+            return 'ok'
         try:
             sess.store.sync()
         except Exception as e:  # noqa: BLE001
